@@ -55,9 +55,11 @@ structure Acc where
   cmap : List Char
   calls : List Char
   flags : List Char
+  probes : List Char
 
-def masks (c : Case) (inp n : Nat) : String :=
+def masks (c : Case) (inp n : Nat) (probe : Option Nat := none) : String :=
   let it0 := mkIt c inp "-" false
+  let want := probe.map (wholeTrace c)
   let step (acc : Acc) (m : Nat) : Acc :=
     let sched := maskSched n m
     let it := { it0 with sched := sched }
@@ -67,11 +69,20 @@ def masks (c : Case) (inp n : Nat) : String :=
       | some i => (i, acc.classes)
       | none => (acc.classes.length, acc.classes ++ [tr])
     let ev := evalNR sched it0.all.length (n - itEnd.sched.length)
-    { sc := if rc = .blockNotReady then Sc.fresh c.set else sc', classes := classes, cmap := b36 idx :: acc.cmap,
-      calls := b36 k :: acc.calls, flags := (if ev then '1' else '0') :: acc.flags }
-  let acc := (List.range (2 ^ n)).foldl step ⟨Sc.fresh c.set, [], [], [], []⟩
+    let sc1 := if rc = .blockNotReady then Sc.fresh c.set else sc'
+    -- probe: the SAME scanner and the SAME iterator object (last_error as the interrupted scan left it) on the other input
+    let (sc2, pc) := match probe, want with
+      | some wi, some wt =>
+        let pit := { mkIt c wi "-" false with lastError := if rc = .blockNotReady then .success else itEnd.lastError }
+        let o := scanCall c.P c.variant cont 16384 sc1 pit ⟨0, 0⟩
+        (if o.rc = .blockNotReady then Sc.fresh c.set else o.sc, if showTrace o.msgs o.rc == wt then '1' else '0')
+      | _, _ => (sc1, '-')
+    { sc := sc2, classes := classes, cmap := b36 idx :: acc.cmap,
+      calls := b36 k :: acc.calls, flags := (if ev then '1' else '0') :: acc.flags, probes := pc :: acc.probes }
+  let acc := (List.range (2 ^ n)).foldl step ⟨Sc.fresh c.set, [], [], [], [], []⟩
   s!"M {acc.classes.length}!" ++ "!".intercalate acc.classes ++ "!" ++ String.ofList acc.cmap.reverse ++ "!" ++
-    String.ofList acc.calls.reverse ++ "!" ++ String.ofList acc.flags.reverse
+    String.ofList acc.calls.reverse ++ "!" ++ String.ofList acc.flags.reverse ++
+    (if probe.isSome then "!P=" ++ String.ofList acc.probes.reverse else "")
 
 def handle (line : String) : String :=
   match Driver.toks line with
@@ -86,6 +97,7 @@ def handle (line : String) : String :=
         (match m.splitOn ":" with
          | [i, n] => id ++ " " ++ masks c (nat i) (nat n)
          | [i, n, wi] => id ++ " " ++ masks c (nat i) (nat n) ++ "!W=" ++ wholeTrace c (nat wi)
+         | [i, n, wi, pi] => id ++ " " ++ masks c (nat i) (nat n) (some (nat pi)) ++ "!W=" ++ wholeTrace c (nat wi)
          | _ => id ++ " BADTASK")
       | none, none => id ++ " BADTASK"
 
